@@ -455,6 +455,9 @@ pub struct CmdSpec {
     pub help_template: Option<String>,
     #[serde(default)]
     pub override_usage: Option<String>,
+    /// `Command::display_order` (position among the sibling subcommands in listings)
+    #[serde(default)]
+    pub display_order: Option<usize>,
     #[serde(default)]
     pub subcommand_value_name: Option<String>,
     #[serde(default)]
@@ -888,6 +891,9 @@ pub fn build_cmd(s: &CmdSpec) -> Command {
     }
     if let Some(t) = &s.override_usage {
         c = c.override_usage(t.clone());
+    }
+    if let Some(o) = s.display_order {
+        c = c.display_order(o);
     }
     if let Some(t) = &s.subcommand_value_name {
         c = c.subcommand_value_name(t.clone());
